@@ -1171,8 +1171,9 @@ where
     // belong to two sub-proofs with different challenges: (s - s') / (c - c') would then be the secret
     {
         // (a position named twice in the hidden list yields the same response twice: one value, not two values
-        // sharing a blinding; such exact repetitions of a response for the same secret are skipped)
-        let mut implied: std::collections::HashMap<Integer, (String, String, Integer)> = Default::default();
+        // sharing a blinding; such exact repetitions of a response for the same secret VALUE are skipped -- two
+        // attributes may carry the same value, e.g. both the largest one)
+        let mut implied: std::collections::HashMap<Integer, (String, String, Integer, Integer)> = Default::default();
         'outer: for (p, s) in &resp {
             for (_, c) in &challenges {
                 if *c == 0 {
@@ -1188,7 +1189,7 @@ where
                             continue;
                         }
                         match implied.get(&b) {
-                            Some((p0, sn0, s0)) if p0 != p && !(*s0 == *s && sn0 == sn) => {
+                            Some((p0, sn0, s0, x0)) if p0 != p && !(*s0 == *s && *x0 == *x) => {
                                 diffs.push(json!({"path": norm_path(p0), "path2": norm_path(p), "secrets": [sn0, sn], "kind": "implied blinding"}));
                                 if diffs.len() > 8 {
                                     break 'outer;
@@ -1196,7 +1197,7 @@ where
                             }
                             Some(_) => {}
                             None => {
-                                implied.insert(b, (p.clone(), sn.clone(), (*s).clone()));
+                                implied.insert(b, (p.clone(), sn.clone(), (*s).clone(), x.clone()));
                             }
                         }
                     }
